@@ -511,6 +511,29 @@ def mode_rules(ctx, facts, rep):
                         found = True
         ok &= found
         rep.check(found, rule, "type-bits:%s" % nm, where(f, f.span), "permissions |= 0o%o" % bits, "%s no longer ORs the file-type bits 0o%o into the mode" % (nm, bits))
+    # add_directory: a name that already ends in a separator -- '/' or the DOS '\\' the reader's is_dir() also honours -- is stored
+    # as given; only other names get a '/' appended.  Both separators are tested (however: match arms, ends_with(closure), matches!)
+    ad = facts.one(ZW + "add_directory$")
+    seps = set()
+    for g in [ad] + facts.closures_of(ad):
+        exg = Ex(g)
+        for b, si2, s2 in g.stmts():
+            if s2["k"] == "assign" and s2["rv"]["k"] == "binop" and s2["rv"]["op"] in ("Eq", "Ne"):
+                for o in (s2["rv"]["a"], s2["rv"]["b"]):
+                    if o["k"] == "const" and o.get("ty") == "char" and o.get("v") is not None:
+                        seps.add(int(o["v"]))
+        for b, t2 in g.calls():
+            for a in t2["args"]:
+                if a["k"] == "const" and a.get("ty") == "char" and a.get("v") is not None:
+                    seps.add(int(a["v"]))
+        for b in range(len(g.blocks)):
+            t2 = g.term(b)
+            if t2 and t2["k"] == "switch" and t2.get("dty") == "char":
+                seps |= {int(v) for v, _ in t2["targets"]}
+    good = {47, 92} <= seps
+    ok &= good
+    rep.check(good, rule, "dir-name-separators", where(ad, ad.span), "add_directory leaves names ending in '/' or '\\' alone",
+              "add_directory tests the name's last character against %s only: a name ending in the other separator gets a second one appended and no longer reads back under its own name" % sorted(chr(c) for c in seps))
     # FileOptions::unix_permissions masks with 0o777
     up = facts.one(r"^write::FileOptions::unix_permissions$")
     masks = [int(o["v"]) for b, si2, s2 in up.stmts() if s2["k"] == "assign" and s2["rv"]["k"] == "binop" and s2["rv"]["op"] == "BitAnd"
